@@ -254,4 +254,43 @@ pub(crate) mod verif_cb {
         kani::cover!(s0 == State::Open && now == nr0 && r);
         kani::cover!(s0 == State::Open && !r);
     });
+
+    // The probe hook: Open -> HalfOpen through an entry registers an exit handler on that entry. When the entry is exited
+    // while its context is blocked (the probe was rejected by another rule) the breaker goes back to Open and announces
+    // it once with prev = HalfOpen; when the context passed, the hook changes nothing.
+    cb_harness!(cb_probe_hook_rolls_back_blocked_probe, 4, {
+        use crate::base::{BlockType, SentinelEntry, SlotChain, TokenResult};
+        use std::sync::RwLock;
+        install_listener();
+        let b = mk_base(mk_rule(BreakerStrategy::ErrorCount, 0, 0.0, 0), State::Open, kani::any(), kani::any());
+        let ctx = Arc::new(RwLock::new(crate::core::base::context::verif_ctx::mk_ctx("r", false, 1, 0, None)));
+        std::mem::forget(ctx.clone());
+        let sc = Arc::new(SlotChain::new());
+        std::mem::forget(sc.clone());
+        let entry = Arc::new(RwLock::new(SentinelEntry::new(ctx.clone(), sc)));
+        std::mem::forget(entry.clone());
+        ctx.write().unwrap().set_entry(Arc::downgrade(&entry));
+        {
+            let g = ctx.read().unwrap();
+            let r = b.from_open_to_half_open(&g);
+            assert!(r && b.current_state() == State::HalfOpen);
+        }
+        assert!(notifications() == (0, 0, 1, 2));
+        let probe_blocked: bool = kani::any();
+        if probe_blocked {
+            ctx.write().unwrap().set_result(TokenResult::new_blocked(BlockType::Other(3)));
+        }
+        entry.read().unwrap().exit();
+        let (c, o, h, prev) = notifications();
+        if probe_blocked {
+            assert!(b.current_state() == State::Open);
+            assert!(c == 0 && o == 1 && h == 1 && prev == 1);
+        } else {
+            assert!(b.current_state() == State::HalfOpen);
+            assert!(c == 0 && o == 0 && h == 1);
+        }
+        std::mem::forget(b);
+        kani::cover!(probe_blocked);
+        kani::cover!(!probe_blocked);
+    });
 }
